@@ -9,6 +9,10 @@ def member(desc, tier, seed):
     return graphchecks.choice_member(desc, tier, seed, props=('C02',))
 
 
+def reinit(desc, tier, seed):
+    return graphchecks.reinit_member(desc, tier, seed)
+
+
 def cached(desc, tier, seed):
     return graphchecks.cached_walk_member(desc, tier, seed)
 
@@ -21,11 +25,12 @@ def run(tier='quick', seed=0):
     members = [d for d in corpus(FAMILIES, tier) if not d.conn_choices]   # selection-only walks: connector feasibility is C11's
     results = harness.run_pool('bounded.drivers.C02', 'member', members, tier, seed)
     results += harness.run_pool('bounded.drivers.C02', 'cached', members, tier, seed)
+    results += harness.run_pool('bounded.drivers.C02', 'reinit', members, tier, seed)
     results += harness.run_pool('bounded.drivers.C02', 'cached_random', list(range(16 if tier == 'quick' else 160)), tier, seed)
     return harness.aggregate(
         results,
         rule='one evaluation = one clause at one node of the choice tree (all orders of taking the active selection '
              'choices x all offered options); non-trivial = distinct (graph, partial assignment)',
         bound='; '.join(__import__('bounded.corpus', fromlist=['BOUND_TEXT']).BOUND_TEXT[f] for f in FAMILIES) +
-              '; every order in which active selection choices can be taken x every offered option; memoised confirmed-edge walk: every node of every member in 4 (10) query orders + 400 (4000) seeded random multigraphs of 3..12 nodes in 3 orders',
+              '; every order in which active selection choices can be taken x every offered option; every unconstrained member once more after an edit of the initialised graph (one more derivation edge, initialised again); memoised confirmed-edge walk: every node of every member in 4 (10) query orders + 400 (4000) seeded random multigraphs of 3..12 nodes in 3 orders',
         assumptions=['reference: closure / admissible assignments of bounded/specsem.py'])
